@@ -33,13 +33,17 @@ Definition aclosed (st : state) (a : aty) : Prop := match a with AUndef => True 
 
 Definition st_closed (st : state) : Prop := forall n t, resolved_of st n = Some t -> closed st t.
 
+Lemma same_shape_ne r : same_shape_result r <> TRaise.
+Proof. destruct r; discriminate. Qed.
+
 Lemma asg_closed_no_raise st (Hst : st_closed st) : forall fuel,
   (forall g a b, aclosed st a -> aclosed st b -> asg fuel st g a b <> TRaise) /\
   (forall g a b, aclosed st a -> aclosed st b -> asg_left fuel st g a b <> TRaise).
 Proof.
   induction fuel as [|f [IHa IHl]]; [split; intros; cbn [asg asg_left]; discriminate|].
   split.
-  - intros g a b Ha Hb. cbn [asg]. destruct (same_ptr a b); [discriminate|].
+  - intros g a b Ha Hb. cbn [asg]. destruct (same_ptr a b); [discriminate|]. cbn zeta.
+    destruct (aty_eqb a b); [apply same_shape_ne|].
     destruct b as [|tb]; [apply IHl; assumption|].
     destruct tb as [|m|m|k x|k x y|]; try (apply IHl; assumption).
     + destruct (seen_pair g a (AT (TAlias m))); [discriminate|].
@@ -133,14 +137,14 @@ Lemma taint_unresolved st n d s k : lookup st n = Some (d, s) -> (forall t, s <>
 Proof. intros H Hs. destruct k; cbn [taint]; rewrite H; destruct s; try reflexivity; exfalso; eapply Hs; reflexivity. Qed.
 
 Lemma asg_core_unres f st n : resolved_of st n = None -> asg (S (S f)) st [] (AT TCore) (AT (TAlias n)) = TF.
-Proof. intros Hr. cbn [asg same_ptr seen_pair existsb]. rewrite Hr. reflexivity. Qed.
+Proof. intros Hr. cbn [asg same_ptr seen_pair existsb aty_eqb rty_eqb]. rewrite Hr. reflexivity. Qed.
 
 Lemma asg_unres_core f st n : resolved_of st n = None -> asg (S (S f)) st [] (AT (TAlias n)) (AT TCore) = TRaise.
-Proof. intros Hr. cbn [asg asg_left same_ptr seen_pair existsb]. rewrite Hr. reflexivity. Qed.
+Proof. intros Hr. cbn [asg asg_left same_ptr seen_pair existsb aty_eqb rty_eqb]. rewrite Hr. reflexivity. Qed.
 
 Lemma asg_unres_unres f st n m :
   Nat.eqb n m = false -> resolved_of st m = None -> asg (S (S f)) st [] (AT (TAlias n)) (AT (TAlias m)) = TF.
-Proof. intros Hnm Hr. cbn [asg same_ptr seen_pair existsb]. rewrite Hnm, Hr. reflexivity. Qed.
+Proof. intros Hnm Hr. cbn [asg same_ptr seen_pair existsb aty_eqb rty_eqb]. rewrite Hnm, Hr. reflexivity. Qed.
 
 Lemma print_fuel_eq : print_fuel = S (S 22).
 Proof. reflexivity. Qed.
